@@ -94,6 +94,20 @@ theorem C18_balance (lc : Bool) (ring : List Sec) (zones : List Nat) (rf : Nat) 
     have := least_le_of_mem (final.take k) hzm'
     omega
 
+/-- **C18, "whenever the zones can accommodate that".**  If the endpoints-per-zone counts of the
+    configuration can take `rf` balanced replicas (`canBalance`, arithmetic on the zone sizes
+    only), the ring is built — and by `C18_balance` every row of it is zone balanced; if they
+    cannot, construction reports the zone error (`C19_build_stuck_iff`). -/
+theorem C18_built_whenever_balanceable (eps : List Ep) (rf : Nat) (hh : ∀ e ∈ eps, e.hashes ≠ [])
+    (hb : rf < 2 ^ 63 - 1) (hle : rf ≤ eps.length) (hcan : canBalance (zoneSizesOf eps) rf = true) :
+    ∃ secs, build true eps rf = .ring secs ∧ Usable eps.length rf secs := by
+  obtain ⟨secs, hs⟩ := (C19_build_stuck_iff eps rf hh hb).2.mpr ⟨hle, hcan⟩
+  rcases C19_build_total eps rf with ⟨h, _⟩ | ⟨h, _⟩ | ⟨secs', h, _, _, hu⟩
+  · rw [hs] at h; cases h
+  · rw [hs] at h; cases h
+  · rw [hs] at h; injection h with h; subst h
+    exact ⟨secs, hs, hu⟩
+
 /-! ### hashmod -/
 
 /-- C18 (distinctness) for hashmod at full strength: for every 64-bit series hash the nodes for
